@@ -581,7 +581,7 @@ End Empty.
 (** "$*" is joined as in bash whenever IFS is not the empty string (and, once the repair of
     get_ifs_first_char is in, always) *)
 Lemma star_ok_nonempty_ifs e : ifs e <> Some [] -> star_ok e.
-Proof. intros H. unfold star_ok, ifs_joiner, star_joiner. destruct (ifs e) as [[|c r]|]; try reflexivity. exfalso; apply H; reflexivity. Qed.
+Proof. intros H. unfold star_ok, ifs_joiner, star_joiner. destruct (ifs e) as [[|c r]|]; try reflexivity; exfalso; apply H; reflexivity. Qed.
 
 (** * Outside the quantifier of the property: IFS with a non-blank character *)
 
